@@ -131,6 +131,9 @@ pub struct UpdateRec {
     pub author: usize,
     pub v1: Vec<u8>,
     pub v2: Vec<u8>,
+    /// ids inserted / deleted by this update (for coverage bookkeeping of relays)
+    pub ins: yrs::IdSet,
+    pub ds: yrs::IdSet,
     /// updates the author had received when it made this change (its causal past)
     pub deps: BTreeSet<usize>,
     pub ops: Vec<Resolved>,
@@ -180,7 +183,11 @@ impl World {
         let v2 = if ev.v2.len() == 1 { ev.v2[0].clone() } else { yrs::merge_updates_v2(&ev.v2).unwrap_or_default() };
         let deps = self.reps[r].received.clone();
         let idx = self.updates.len();
-        self.updates.push(UpdateRec { author: r, v1, v2, deps, ops });
+        let (ins, ds) = match Update::decode_v1(&v1) {
+            Ok(u) => (u.insertions(true), u.delete_set().clone()),
+            Err(_) => (yrs::IdSet::new(), yrs::IdSet::new()),
+        };
+        self.updates.push(UpdateRec { author: r, v1, v2, ins, ds, deps, ops });
         self.reps[r].received.insert(idx);
         Some(idx)
     }
@@ -226,10 +233,33 @@ impl World {
                 txn.encode_state_as_update_v1(&sv)
             }
         };
+        // what the receiver is given = what the payload carries (blocks incl. the sender's stash,
+        // deletions) on top of what it already holds
+        let (known_ins, known_ds) = {
+            let txn = self.reps[to].doc.transact();
+            let mut ins = yrs::IdSet::new();
+            let mut ds = yrs::IdSet::new();
+            for b in yrs::verif_hooks::store_blocks(txn.store()) {
+                if b.kind != yrs::verif_hooks::BlockKind::Skip {
+                    ins.insert(yrs::ID::new(b.client, b.clock), b.len);
+                    if b.deleted {
+                        ds.insert(yrs::ID::new(b.client, b.clock), b.len);
+                    }
+                }
+            }
+            (ins, ds)
+        };
+        let payload = if v2 { Update::decode_v2(&bytes) } else { Update::decode_v1(&bytes) }.map_err(|e| format!("sync payload does not decode (v2={}): {}", v2, e))?;
+        let have_ins = known_ins.merge(&payload.insertions(true));
+        let have_ds = known_ds.merge(payload.delete_set());
         self.reps[to].apply(&bytes, v2)?;
-        if clean {
-            let add: Vec<usize> = self.reps[from].received.iter().copied().collect();
-            self.reps[to].received.extend(add);
+        for i in 0..self.updates.len() {
+            if !self.reps[to].received.contains(&i) {
+                let u = &self.updates[i];
+                if u.ins.diff(&have_ins).is_empty() && u.ds.diff(&have_ds).is_empty() {
+                    self.reps[to].received.insert(i);
+                }
+            }
         }
         self.reps[to].drain();
         Ok(clean)
